@@ -1,5 +1,6 @@
 """Registry: which scenario families / model-checking instances decide which property."""
 import engine, tlc
+from multiprocessing import get_context
 
 
 def scen_job(rep, module, family, own, known, parts=16, replay=('replay_nlp', 'replay'), cfg=None, extra_env=None):
@@ -125,8 +126,40 @@ def check_C17(rep, known):
     engine.process_results(rep, recs, outs, [r'C17\.'], known)
 
 
+def trace_job(rep, known):
+    """Direction B: traces recorded by an independent random driver, validated by TLC against Lifecycle.tla."""
+    import record, re
+    n = 2000 if rep.tier == 'thorough' else 240
+    seeds = [rep.seed * 100000 + i for i in range(n)]
+    ctx = get_context("fork")
+    with ctx.Pool(16) as pool:
+        traces = pool.map(record.record_one, seeds, chunksize=4)
+    bad = [t for t in traces if t.get('error')]
+    if bad: raise RuntimeError('recorder failed: %s' % bad[0]['error'])
+    chunks = [traces[i:i + 120] for i in range(0, len(traces), 120)]
+    from concurrent.futures import ThreadPoolExecutor
+    with ThreadPoolExecutor(8) as ex:
+        results = list(ex.map(record.validate, chunks))
+    for (verdicts, st), chunk in zip(results, chunks):
+        st['module'] = 'TraceLifecycle'; rep.add_tlc(st)
+        for t in chunk:
+            v = verdicts.get(t['id'], 'missing')
+            rep.evaluations += 1
+            rep.sigs.add(t['id'] + ':' + ';'.join(e['op'] for e in t['events']))
+            if len(rep.samples) < 5: rep.samples.append({'trace': [[e['op'], e['arg']] for e in t['events']]})
+            if v == '{}':
+                rep.count('C13.trace', 'ok')
+            else:
+                rep.count('C13.trace', 'mismatch')
+                rec = {'trace': t}
+                k = engine.match_known(rep.pid, 'C13.trace', v, rec, known)
+                if k: rep.known_hits[k['key']] = rep.known_hits.get(k['key'], 0) + 1
+                else: rep.violations.append(('C13.trace', 'TLC rejects the recorded trace: ' + v[:300], rec, None))
+
+
 def check_C13(rep, known):
     life_job(rep, [r'C13\.'], known)
+    trace_job(rep, known)
 
 
 def check_C09(rep, known):
